@@ -461,4 +461,88 @@ theorem parse_serialize {t : Tx} {e : Bytes} (rest : Bytes) (wf : TxWF t) (h : t
     rw [parse_sniff _ _ _ l4, if_neg hx, this]
     simp [canonTx, coreTx, hs]
 
+
+/-! ### the fetcher's cache -/
+
+theorem fetch_id {hash256 : Bytes → Bytes} {network txId response : String} {t : Tx}
+    (h : fetch hash256 network txId response = some t) : t.id hash256 = some txId := by
+  unfold fetch at h
+  split at h
+  · cases h
+  · split at h
+    · cases h
+    · split at h
+      · cases h
+      · split at h
+        · cases h
+        · next tx _ _ computed hc =>
+          split at h
+          · cases h
+          · next hne =>
+            cases h
+            simp only [ne_eq, Decidable.not_not] at hne
+            rw [hc, hne]
+
+/-- every cached transaction hashes to the id it is stored under -/
+def CacheOK (hash256 : Bytes → Bytes) (c : FetchCache) : Prop :=
+  ∀ k t, cacheGet c k = some t → t.id hash256 = some k
+
+theorem cacheGet_set (c : FetchCache) (k k' : String) (t : Tx) :
+    cacheGet (cacheSet c k t) k' = if k = k' then some t else cacheGet c k' := by
+  induction c with
+  | nil => simp [cacheSet, cacheGet]
+  | cons e r ih =>
+    obtain ⟨k0, t0⟩ := e
+    by_cases h0 : k0 = k
+    · subst h0
+      by_cases h1 : k0 = k' <;> simp [cacheSet, cacheGet, h1]
+    · by_cases h1 : k0 = k'
+      · subst h1
+        have : ¬ k = k0 := fun h => h0 h.symm
+        simp [cacheSet, cacheGet, h0, this]
+      · simp [cacheSet, cacheGet, h0, h1, ih]
+
+theorem cacheOK_nil (hash256 : Bytes → Bytes) : CacheOK hash256 [] := by
+  intro k t h; simp [cacheGet] at h
+
+theorem fetchStep_sound {hash256 : Bytes → Bytes} {c : FetchCache} (ok : CacheOK hash256 c) (call : FetchCall) :
+    CacheOK hash256 (fetchStep hash256 c call).2 ∧
+    ∀ t, (fetchStep hash256 c call).1 = some t → t.id hash256 = some call.txId := by
+  unfold fetchStep
+  by_cases hc : call.fresh ∨ (cacheGet c call.txId).isNone
+  · rw [if_pos hc]
+    cases hf : fetch hash256 call.network call.txId call.response with
+    | none => exact ⟨ok, fun t h => by cases h⟩
+    | some tx =>
+      have hid := fetch_id hf
+      refine ⟨?_, fun t h => by cases h; exact hid⟩
+      intro k t h
+      rw [cacheGet_set] at h
+      by_cases hk : call.txId = k
+      · rw [if_pos hk] at h; cases h; rw [← hk]; exact hid
+      · rw [if_neg hk] at h; exact ok k t h
+  · rw [if_neg hc]
+    exact ⟨ok, fun t h => ok _ t h⟩
+
+theorem fetchRun_sound {hash256 : Bytes → Bytes} (calls : List FetchCall) {c : FetchCache} (ok : CacheOK hash256 c) :
+    CacheOK hash256 (fetchRun hash256 c calls).2 ∧
+    ∀ (n : Nat) (call : FetchCall) (t : Tx), calls[n]? = some call →
+      (fetchRun hash256 c calls).1[n]? = some (some t) → t.id hash256 = some call.txId := by
+  induction calls generalizing c with
+  | nil => exact ⟨ok, fun n call t h => by simp at h⟩
+  | cons call r ih =>
+    obtain ⟨ok', ans⟩ := fetchStep_sound ok call
+    obtain ⟨okr, ansr⟩ := ih ok'
+    simp only [fetchRun]
+    refine ⟨okr, ?_⟩
+    intro n call' t h1 h2
+    cases n with
+    | zero =>
+      simp only [List.getElem?_cons_zero, Option.some.injEq] at h1 h2
+      subst h1
+      exact ans t h2
+    | succ n =>
+      simp only [List.getElem?_cons_succ] at h1 h2
+      exact ansr n call' t h1 h2
+
 end Buidl.Tx
